@@ -2,14 +2,18 @@
   C12 — invalid arguments are rejected with std::invalid_argument, valid ones accepted, nothing leaks.
   Theorems are about `Gen/Guard.lean` and `Gen/Sort.lean`, regenerated on every run from HermEigsBase.h, GenEigsBase.h,
   JDSymEigsBase.h, SymGEigsShiftSolver.h, Util/SelectionRule.h and (for the raw-`new` footprint) every constructor in
-  namespace Spectra.  Integer statements hold for all n, nev, ncv ∈ ℤ.
+  namespace Spectra, and about `Gen/MatOpGuard.lean`, regenerated from the constructors of every class of MatOp/*.h and of the
+  internal SymGEigs*Op adapters.  Integer statements hold for all n, nev, ncv, rows, cols ∈ ℤ.
 -/
 import SpectraVerif.Gen.Guard
 import SpectraVerif.Gen.Sort
+import SpectraVerif.Gen.MatOpGuard
+import SpectraVerif.Model.C12Geigs
 import SpectraVerif.Proofs.ScField
+import SpectraVerif.Proofs.C12Lemmas
 
 namespace C12
-open Gen.Guard
+open Gen.Guard Gen.MatOpGuard
 
 /-- symmetric/Hermitian family (both constructor overloads): accepted ⇔ 1 ≤ nev ≤ n-1 ∧ nev < ncv ≤ n,
     and every rejection is `std::invalid_argument` -/
@@ -85,6 +89,114 @@ theorem c12_svd_iff (ncomp ncv rows cols : Int) :
       (1 ≤ ncomp ∧ ncomp ≤ min rows cols - 1 ∧ ncomp < ncv ∧ ncv ≤ min rows cols) :=
   (c12_herm_iff ncomp ncv (min rows cols)).1
 
+/-! ### shape guards of the matrix-operation wrappers (MatOp/*.h)
+
+  `Validates g dom` (Proofs/C12Lemmas.lean): `g = ok ⇔ dom`, and every rejection is `std::invalid_argument`; hence
+  (`Validates.throws_iff`) `g = throw invalid_argument ⇔ ¬ dom`.  One theorem per wrapper, for ALL integer shapes, about the
+  constructor regenerated from the header: a rewritten guard either still proves (harmless) or breaks its theorem.
+  `size()` is translated as `rows * cols`, so a test on coefficient counts is not a test on shapes. -/
+
+/-- `DenseSymMatProd(mat)`: accepted ⇔ the matrix is square -/
+theorem c12_wrap_DenseSymMatProd (rows cols : Int) : Validates (ctor_DenseSymMatProd rows cols) (rows = cols) :=
+  validates_of_eq (by shape_guard_eq ctor_DenseSymMatProd)
+
+/-- `DenseHermMatProd(mat)`: accepted ⇔ the matrix is square -/
+theorem c12_wrap_DenseHermMatProd (rows cols : Int) : Validates (ctor_DenseHermMatProd rows cols) (rows = cols) :=
+  validates_of_eq (by shape_guard_eq ctor_DenseHermMatProd)
+
+/-- `SparseSymMatProd(mat)`: accepted ⇔ the matrix is square -/
+theorem c12_wrap_SparseSymMatProd (rows cols : Int) : Validates (ctor_SparseSymMatProd rows cols) (rows = cols) :=
+  validates_of_eq (by shape_guard_eq ctor_SparseSymMatProd)
+
+/-- `SparseHermMatProd(mat)`: accepted ⇔ the matrix is square -/
+theorem c12_wrap_SparseHermMatProd (rows cols : Int) : Validates (ctor_SparseHermMatProd rows cols) (rows = cols) :=
+  validates_of_eq (by shape_guard_eq ctor_SparseHermMatProd)
+
+/-- `DenseSymShiftSolve(mat)`: accepted ⇔ the matrix is square -/
+theorem c12_wrap_DenseSymShiftSolve (rows cols : Int) : Validates (ctor_DenseSymShiftSolve rows cols) (rows = cols) :=
+  validates_of_eq (by shape_guard_eq ctor_DenseSymShiftSolve)
+
+/-- `SparseSymShiftSolve(mat)`: accepted ⇔ the matrix is square -/
+theorem c12_wrap_SparseSymShiftSolve (rows cols : Int) : Validates (ctor_SparseSymShiftSolve rows cols) (rows = cols) :=
+  validates_of_eq (by shape_guard_eq ctor_SparseSymShiftSolve)
+
+/-- `DenseGenRealShiftSolve(mat)`: accepted ⇔ the matrix is square -/
+theorem c12_wrap_DenseGenRealShiftSolve (rows cols : Int) : Validates (ctor_DenseGenRealShiftSolve rows cols) (rows = cols) :=
+  validates_of_eq (by shape_guard_eq ctor_DenseGenRealShiftSolve)
+
+/-- `SparseGenRealShiftSolve(mat)`: accepted ⇔ the matrix is square -/
+theorem c12_wrap_SparseGenRealShiftSolve (rows cols : Int) : Validates (ctor_SparseGenRealShiftSolve rows cols) (rows = cols) :=
+  validates_of_eq (by shape_guard_eq ctor_SparseGenRealShiftSolve)
+
+/-- `DenseGenComplexShiftSolve(mat)`: accepted ⇔ the matrix is square -/
+theorem c12_wrap_DenseGenComplexShiftSolve (rows cols : Int) : Validates (ctor_DenseGenComplexShiftSolve rows cols) (rows = cols) :=
+  validates_of_eq (by shape_guard_eq ctor_DenseGenComplexShiftSolve)
+
+/-- `SparseGenComplexShiftSolve(mat)`: accepted ⇔ the matrix is square -/
+theorem c12_wrap_SparseGenComplexShiftSolve (rows cols : Int) : Validates (ctor_SparseGenComplexShiftSolve rows cols) (rows = cols) :=
+  validates_of_eq (by shape_guard_eq ctor_SparseGenComplexShiftSolve)
+
+/-- `DenseCholesky(mat)`: accepted ⇔ the matrix is square -/
+theorem c12_wrap_DenseCholesky (rows cols : Int) : Validates (ctor_DenseCholesky rows cols) (rows = cols) :=
+  validates_of_eq (by shape_guard_eq ctor_DenseCholesky)
+
+/-- `SparseCholesky(mat)`: accepted ⇔ the matrix is square -/
+theorem c12_wrap_SparseCholesky (rows cols : Int) : Validates (ctor_SparseCholesky rows cols) (rows = cols) :=
+  validates_of_eq (by shape_guard_eq ctor_SparseCholesky)
+
+/-- `SparseRegularInverse(mat)`: accepted ⇔ the matrix is square -/
+theorem c12_wrap_SparseRegularInverse (rows cols : Int) : Validates (ctor_SparseRegularInverse rows cols) (rows = cols) :=
+  validates_of_eq (by shape_guard_eq ctor_SparseRegularInverse)
+
+/-- `DenseGenMatProd(mat)`: every shape is accepted (general rectangular product `y = A x`; squareness is the solver's business) -/
+theorem c12_wrap_DenseGenMatProd (rows cols : Int) : Validates (ctor_DenseGenMatProd rows cols) True :=
+  validates_of_eq (by shape_guard_eq ctor_DenseGenMatProd)
+
+/-- `SparseGenMatProd(mat)`: every shape is accepted (general rectangular product `y = A x`; squareness is the solver's business) -/
+theorem c12_wrap_SparseGenMatProd (rows cols : Int) : Validates (ctor_SparseGenMatProd rows cols) True :=
+  validates_of_eq (by shape_guard_eq ctor_SparseGenMatProd)
+
+/-- `SymShiftInvert(A, B)`: accepted ⇔ A and B are square of the same order (NOT: of the same coefficient count) -/
+theorem c12_wrap_SymShiftInvert (a_rows a_cols b_rows b_cols : Int) :
+    Validates (ctor_SymShiftInvert a_rows a_cols b_rows b_cols) (a_rows = a_cols ∧ b_rows = a_rows ∧ b_cols = a_rows) :=
+  validates_of_eq (by shape_guard_eq ctor_SymShiftInvert)
+
+/-- the statement in the "throws ⇔ outside the documented domain" form, for the two-matrix wrapper -/
+theorem c12_wrap_SymShiftInvert_throws (a_rows a_cols b_rows b_cols : Int) :
+    ctor_SymShiftInvert a_rows a_cols b_rows b_cols = Res.throw "std::invalid_argument" ↔
+      ¬ (a_rows = a_cols ∧ b_rows = a_rows ∧ b_cols = a_rows) :=
+  (c12_wrap_SymShiftInvert a_rows a_cols b_rows b_cols).throws_iff
+
+/-! ### generalized solvers: two operators
+
+  Full statement (NOT provable on the present tree, finding F22): for all sizes `a` of op and `b` of Bop
+  `Validates (geigs_solver_ctor mode nev ncv a b) (a = b ∧ 1 ≤ nev ∧ nev ≤ a - 1 ∧ nev < ncv ∧ ncv ≤ a)`.
+  Neither the solver constructors nor the SymGEigs*Op adapters compare `op.rows()` with `Bop.rows()`: the regenerated
+  `geigs_ctor_*` are all `Res.ok ()`, and (nev, ncv) are validated against whichever size the adapter's `rows()` returns.
+  Proved: the equal-size part.  Missing: rejection of `a ≠ b` (the sweep of harness/c12.cpp reports every accepted mismatch). -/
+
+-- the extra simp lemmas / closing tactics are for guards a later revision may add to the adapters
+set_option linter.unusedSimpArgs false in
+set_option linter.unreachableTactic false in
+theorem c12_geigs_equal_sizes (mode n : Int) : geigs_ctor mode n n = Res.ok () ∧ geigs_rows mode n n = n := by
+  constructor
+  · simp only [geigs_ctor, geigs_ctor_SymGEigsCholeskyOp, geigs_ctor_SymGEigsRegInvOp, geigs_ctor_SymGEigsShiftInvertOp,
+      geigs_ctor_SymGEigsBucklingOp, geigs_ctor_SymGEigsCayleyOp, Bool.or_eq_true, decide_eq_true_eq, ne_eq]
+    repeat' split
+    all_goals first | rfl | omega | simp_all
+  · simp only [geigs_rows, geigs_rows_SymGEigsCholeskyOp, geigs_rows_SymGEigsRegInvOp, geigs_rows_SymGEigsShiftInvertOp,
+      geigs_rows_SymGEigsBucklingOp, geigs_rows_SymGEigsCayleyOp]
+    repeat' split
+    all_goals first | rfl | omega | simp_all
+
+/-- every GEigsMode, operators of one common size n: accepted ⇔ 1 ≤ nev ≤ n-1 ∧ nev < ncv ≤ n -/
+theorem c12_geigs_iff_partial (mode nev ncv n : Int) :
+    Validates (geigs_solver_ctor mode nev ncv n n) (1 ≤ nev ∧ nev ≤ n - 1 ∧ nev < ncv ∧ ncv ≤ n) := by
+  have h := c12_geigs_equal_sizes mode n
+  unfold geigs_solver_ctor
+  rw [h.1, h.2]
+  exact ⟨(c12_herm_iff nev ncv n).1, (c12_herm_iff nev ncv n).2.1⟩
+
 section field
 variable {K : Type} [Field K] [LinearOrder K] [IsStrictOrderedRing K] (F : FieldFns K)
 
@@ -141,5 +253,8 @@ theorem c12_no_leak : ∀ p ∈ ctor_raw_new, p.2 = 0 := by decide
 example : herm_ctor_lvalue 3 6 10 = Res.ok () ∧ gen_ctor 3 6 10 = Res.ok () ∧ jd_check_argument 3 10 = Res.ok () := by decide
 example : herm_ctor_lvalue 10 11 10 = Res.throw "std::invalid_argument" ∧ gen_ctor 9 11 10 = Res.throw "std::invalid_argument" := by decide
 example : leakedAt [(Own.raw, 1), (Own.raii, 2)] 1 = [1] := by decide
+example : ctor_SymShiftInvert 3 3 3 3 = Res.ok () ∧ ctor_SymShiftInvert 2 2 1 4 = Res.throw "std::invalid_argument" ∧
+    ctor_SymShiftInvert 2 2 4 1 = Res.throw "std::invalid_argument" ∧ ctor_DenseCholesky 2 3 = Res.throw "std::invalid_argument" ∧
+    ctor_DenseGenMatProd 2 3 = Res.ok () ∧ geigs_solver_ctor 0 2 4 6 6 = Res.ok () := by decide
 
 end C12
